@@ -38,7 +38,7 @@ func smallCreate(r *rand.Rand) (M, string) {
 
 func genC17(r *rand.Rand, n int, emit func(string)) {
 	for i := 0; i < n; i++ {
-		ns := pick(r, []string{"did:foo", "did:sidetree", "did:ion"})
+		ns := pick(r, []string{"did:foo", "did:sidetree", "did:ion", "did:ion:test", "did:sidetree:a:b"})
 		req, suffix := smallCreate(r)
 		canon := opb.Canon(req)
 		initial := opb.B64E(canon)
